@@ -89,7 +89,9 @@ SrcFailing(r) ==
 \*   target module exist)
 Src2Failing(r) ==
     LET targets == [k \in 1..Len(r.asciis) |-> OsrcTarget(r.asciis[k])] IN
-    {x \in {"Src2ModuleNames", "Src2CallOrder"} :
+    {x \in {"Src2ModuleNames", "Src2CallOrder", "Src2Details"} :
+       \* however the first parser behaved, the second SRC gets what its own parser says
+       \/ x = "Src2Details" /\ r.details # r.want_details
        \/ x = "Src2ModuleNames" /\ Dedup(r.imports, {}) # Dedup(<<SrcModName(BMC)>> \o targets, {})
        \/ x = "Src2CallOrder" /\ r.call_mods # SelectSeq(targets, LAMBDA t : \E k \in 1..Len(targets) : targets[k] = t /\ r.present[k]) }
 
